@@ -504,4 +504,243 @@ theorem run_ok {β : Type} {D : Down σ ω} {I : σ → Prop} {S : QA → Prop} 
       · rw [h2]; exact Or.inr rfl
     · rw [h1]; exact Or.inr rfl
 
+/-- a history that ran to the end leaves the invariants in force -/
+theorem run_inv {β : Type} {D : Down σ ω} {I : σ → Prop} {S : QA → Prop} (hD : DownOK D I S) (hS : SendOK S)
+    (other : σ → β → Except PyExc (σ × List ω))
+    (hO : ∀ d b, I d → ∃ d' o, other d b = .ok (d', o) ∧ I d')
+    (bs : List (Block β)) (s s' : State σ) (out : List (Out ω)) (hI : I s.down) (hL : LInv s)
+    (h : run D other s bs = .ok (s', out)) : I s'.down ∧ LInv s' := by
+  rcases run_ok hD hS other hO bs s hI hL with ⟨s2, o2, h2, hI2, hL2⟩ | h2
+  · rw [h2] at h
+    cases h
+    exact ⟨hI2, hL2⟩
+  · rw [h2] at h; cases h
+
+/-- the only way a block can fail under the invariants: it is a deferred-query timer for an address
+that has no armed timer — not a block the event loop can run -/
+theorem step_ok' {β : Type} {D : Down σ ω} {I : σ → Prop} {S : QA → Prop} (hD : DownOK D I S) (hS : SendOK S)
+    (other : σ → β → Except PyExc (σ × List ω))
+    (hO : ∀ d b, I d → ∃ d' o, other d b = .ok (d', o) ∧ I d')
+    (s : State σ) (b : Block β) (hI : I s.down) (hL : LInv s) :
+    (∃ s' out, step D other s b = .ok (s', out) ∧ I s'.down ∧ LInv s') ∨
+      (∃ addr, b = .tcFire addr ∧ alGet addr s.timers = none) := by
+  cases b with
+  | tcFire addr =>
+    cases ht : alGet addr s.timers with
+    | none => exact Or.inr ⟨addr, rfl, ht⟩
+    | some t =>
+      obtain ⟨s', out, tag, h, hI', hL'⟩ := tcFire_ok hD hS s addr t ht hI hL
+      exact Or.inl ⟨s', out, by simp [step, h, Except.map], hI', hL'⟩
+  | recv data addr port now draw =>
+    rcases step_ok hD hS other hO s (.recv data addr port now draw) hI hL with h | h
+    · exact Or.inl h
+    · obtain ⟨s', out, tag, h', _, _⟩ := recv_ok hD hS s data addr port now draw hI hL
+      simp [step, h', Except.map] at h
+  | down b =>
+    rcases step_ok hD hS other hO s (.down b) hI hL with h | h
+    · exact Or.inl h
+    · obtain ⟨d', o, h', _⟩ := hO s.down b hI
+      simp [step, h', Except.map] at h
+
+/-- **every history, with the illegal ones named**: a history either runs to the end (and the
+invariants hold there) or it contains a deferred-query timer block for an address whose timer is not
+armed at that point — `pre` ran normally up to it.  Nothing else can stop a history. -/
+theorem run_ok' {β : Type} {D : Down σ ω} {I : σ → Prop} {S : QA → Prop} (hD : DownOK D I S) (hS : SendOK S)
+    (other : σ → β → Except PyExc (σ × List ω))
+    (hO : ∀ d b, I d → ∃ d' o, other d b = .ok (d', o) ∧ I d') :
+    ∀ (bs : List (Block β)) (s : State σ), I s.down → LInv s →
+      (∃ s' out, run D other s bs = .ok (s', out) ∧ I s'.down ∧ LInv s') ∨
+      (∃ pre addr post s1 o1, bs = pre ++ Block.tcFire addr :: post ∧ run D other s pre = .ok (s1, o1) ∧
+        alGet addr s1.timers = none) := by
+  intro bs
+  induction bs with
+  | nil => intro s hI hL; exact Or.inl ⟨s, [], rfl, hI, hL⟩
+  | cons b rest ih =>
+    intro s hI hL
+    rcases step_ok' hD hS other hO s b hI hL with ⟨s1, o1, h1, hI1, hL1⟩ | ⟨addr, hb, hn⟩
+    · rcases ih s1 hI1 hL1 with ⟨s2, o2, h2, hI2, hL2⟩ | ⟨pre, addr, post, s2, o2, hbs, hpre, hn⟩
+      · left
+        refine ⟨s2, o1 ++ o2, ?_, hI2, hL2⟩
+        unfold run
+        rw [h1]
+        dsimp only
+        rw [h2]
+      · right
+        refine ⟨b :: pre, addr, post, s2, o1 ++ o2, by rw [hbs]; rfl, ?_, hn⟩
+        unfold run
+        rw [h1]
+        dsimp only
+        rw [hpre]
+    · right
+      exact ⟨[], addr, rest, s, [], by rw [hb]; rfl, rfl, hn⟩
+
+/-! ### the instance keeps working: what the next datagram does, after any history
+
+The duplicate guard's memory `(data, lastTime, lastMsg)` and the deferral tables are the only listener
+state a hostile stream can leave behind.  The lemmas below say that a datagram which is not a
+duplicate of one *processed* less than a second earlier is handed to the downstream component:
+a query to `D.answer` (and the answer sets it returns are sent inside the block), a response to
+`D.ingest`. -/
+
+/-- not the remembered bytes ⇒ the duplicate guard does not fire -/
+theorem guardHit_false_of_ne (s : State σ) (data : Bytes) (now : Ms) (h : s.data ≠ some data) : guardHit s data now = false := by
+  unfold guardHit
+  cases hg : Gen.Listener.dup_guard (s.data == some data) now s.lastTime s.lastMsg.isNone
+      ((s.lastMsg.map (·.1)).getD false) ((s.lastMsg.map (·.2)).getD false) with
+  | false => rfl
+  | true =>
+    have := (GenFacts.Listener.dup_guard_iff _ _ _ _ _ _).mp hg
+    exact absurd (by simpa using this.1) h
+
+/-- at least 1000 ms after the last *processed* datagram ⇒ the duplicate guard does not fire -/
+theorem guardHit_false_of_old (s : State σ) (data : Bytes) (now : Ms) (h : s.lastTime + 1000 ≤ now) : guardHit s data now = false := by
+  unfold guardHit
+  cases hg : Gen.Listener.dup_guard (s.data == some data) now s.lastTime s.lastMsg.isNone
+      ((s.lastMsg.map (·.1)).getD false) ((s.lastMsg.map (·.2)).getD false) with
+  | false => rfl
+  | true =>
+    have h2 : (now : Int) - 1000 < s.lastTime := ((GenFacts.Listener.dup_guard_iff _ _ _ _ _ _).mp hg).2.1
+    have h' : (s.lastTime : Int) + 1000 ≤ now := h
+    exact absurd h2 (Int.not_lt.mpr (Int.le_sub_right_of_add_le h'))
+
+/-- the state `process` leaves in the listener's three memory fields -/
+def remember (s : State σ) (data : Bytes) (now : Ms) (p : Parsed) : State σ :=
+  { s with data := some data, lastTime := now, lastMsg := some (Gen.Listener.is_query p.hdr.flags, p.hasQU) }
+
+/-- **a well-formed, untruncated query that is not suppressed as a duplicate reaches `_respond_query`** -/
+theorem recv_query_eq (D : Down σ ω) (s : State σ) (data : Bytes) (addr : Addr) (port : Nat) (now : Ms) (draw : Nat) (p : Parsed)
+    (hsize : data.length ≤ 8966) (hg : guardHit s data now = false) (hp : (parse data).out = .ok p)
+    (hv : p.valid = true) (hq : Gen.Listener.is_query p.hdr.flags = true) (htc : Gen.Listener.truncated p.hdr.flags = false)
+    (he : D.hasEntries s.down = true) :
+    recv D s data addr port now draw = respond D (remember s data now p) (some ⟨data, now, p, none⟩) addr port := by
+  have hov : Gen.Listener.oversize (data.length : Int) = false := by
+    cases hb : Gen.Listener.oversize (data.length : Int)
+    · rfl
+    · have := (GenFacts.Survive.oversize_iff _).mp hb; omega
+  unfold recv
+  rw [hov, hg]
+  simp only [Bool.false_eq_true, if_false]
+  unfold process
+  rw [hp]
+  simp only [Pkt.isQuery, Pkt.truncated, Pkt.hasQU, hv, hq, he, Bool.not_true, Bool.false_eq_true, if_false]
+  unfold queryOrDefer
+  simp only [Pkt.truncated, htc, Bool.not_false, if_true, remember, hq]
+
+/-- **a valid response that is not suppressed as a duplicate reaches the record manager** -/
+theorem recv_response_eq (D : Down σ ω) (s : State σ) (data : Bytes) (addr : Addr) (port : Nat) (now : Ms) (draw : Nat) (p : Parsed)
+    (hsize : data.length ≤ 8966) (hg : guardHit s data now = false) (hp : (parse data).out = .ok p)
+    (hv : p.valid = true) (hq : Gen.Listener.is_query p.hdr.flags = false) :
+    recv D s data addr port now draw =
+      match D.ingest s.down ⟨data, now, p, none⟩ with
+      | .error e => .error e
+      | .ok (d, out) => .ok ({ remember s data now p with down := d }, out.map Out.down, .response) := by
+  have hov : Gen.Listener.oversize (data.length : Int) = false := by
+    cases hb : Gen.Listener.oversize (data.length : Int)
+    · rfl
+    · have := (GenFacts.Survive.oversize_iff _).mp hb; omega
+  unfold recv
+  rw [hov, hg]
+  simp only [Bool.false_eq_true, if_false]
+  unfold process
+  rw [hp]
+  simp only [Pkt.isQuery, Pkt.hasQU, hv, hq, Bool.not_true, Bool.not_false, Bool.false_eq_true, if_false, if_true, remember]
+  rfl
+
+/-- what `handle_assembled_query` sends inside the block for the answer sets it was given -/
+def Sent (addr : Addr) (port : Nat) (qa : Option QA) (out : List (Out ω)) : Prop :=
+  ∀ q, qa = some q →
+    (q.ucast.isEmpty = false → ∃ pk, Out.unicast addr port pk ∈ out) ∧
+    (q.mcastNow.isEmpty = false → ∃ pk, Out.multicast pk ∈ out)
+
+theorem handleAssembled_sends {D : Down σ ω} {I : σ → Prop} {S : QA → Prop} (hD : DownOK D I S) (hS : SendOK S)
+    (d : σ) (ks : List Pkt) (addr : Addr) (port : Nat) (hI : I d) (hne : ks ≠ []) (hk : ∀ k ∈ ks, PktOK k) :
+    ∃ d1 qa d' out, D.answer d ks (Gen.Listener.ucast_source port) = .ok (d1, qa) ∧
+      handleAssembled D d ks addr port = .ok (d', out) ∧ I d' ∧ Sent addr port qa out := by
+  cases ks with
+  | nil => exact absurd rfl hne
+  | cons first rest =>
+    obtain ⟨d1, qa, ha, hI1, hs⟩ := hD.answer d (first :: rest) (Gen.Listener.ucast_source port) hI hne hk
+    refine ⟨d1, qa, ?_⟩
+    suffices h : ∃ d' out, handleAssembled D d (first :: rest) addr port = .ok (d', out) ∧ I d' ∧ Sent addr port qa out by
+      obtain ⟨d', out, h1, h2, h3⟩ := h
+      exact ⟨d', out, ha, h1, h2, h3⟩
+    unfold handleAssembled
+    simp only [ha]
+    cases qa with
+    | none => exact ⟨d1, [], rfl, hI1, by intro q hq; cases hq⟩
+    | some q =>
+      obtain ⟨hu, hm⟩ := hS q (hs q rfl)
+      have hfirst := hk first List.mem_cons_self
+      obtain ⟨pk1, hpk1⟩ := hu (Gen.Listener.ucast_source port) first.p.questions first.p.hdr.id
+        (questions_ok hfirst) hfirst.2.2.2.1
+      obtain ⟨pk2, hpk2⟩ := hm
+      simp only [hpk1, hpk2, Except.map]
+      have hI2 := hD.enqueue d1 first.now q hI1
+      by_cases h1 : q.ucast.isEmpty = true <;> by_cases h2 : q.mcastNow.isEmpty = true <;>
+        simp only [h1, h2, if_true, if_false, Bool.false_eq_true] <;>
+        refine ⟨_, _, rfl, hI2, ?_⟩ <;> intro q' hq' <;> cases hq' <;>
+        refine ⟨fun hne1 => ?_, fun hne2 => ?_⟩ <;> simp_all
+
+/-- **A well-formed query sent afterwards is still answered** (generic form).  In any state that
+satisfies the invariants — in particular after any history (`run_inv`) — an untruncated, valid query
+that is not a duplicate of a datagram processed less than a second earlier is handed to the answer
+computation together with whatever was deferred for its address, `datagram_received` returns, and the
+unicast and immediate-multicast answer sets the computation returns are sent inside the block. -/
+theorem recv_query_answered {D : Down σ ω} {I : σ → Prop} {S : QA → Prop} (hD : DownOK D I S) (hS : SendOK S)
+    (s : State σ) (hI : I s.down) (hL : LInv s) (data : Bytes) (addr : Addr) (port : Nat) (now : Ms) (draw : Nat) (p : Parsed)
+    (hsize : data.length ≤ 8966) (hg : guardHit s data now = false) (hp : (parse data).out = .ok p)
+    (hv : p.valid = true) (hq : Gen.Listener.is_query p.hdr.flags = true) (htc : Gen.Listener.truncated p.hdr.flags = false)
+    (he : D.hasEntries s.down = true) :
+    ∃ d1 qa s' out,
+      D.answer s.down ((alGet addr s.deferred).getD [] ++ [⟨data, now, p, none⟩]) (Gen.Listener.ucast_source port) = .ok (d1, qa) ∧
+      recv D s data addr port now draw = .ok (s', out, .responded ((alGet addr s.deferred).getD [] ++ [(⟨data, now, p, none⟩ : Pkt)]).length) ∧
+      I s'.down ∧ LInv s' ∧ Sent addr port qa out := by
+  rw [recv_query_eq D s data addr port now draw p hsize hg hp hv hq htc he]
+  obtain ⟨p', hp', hk⟩ := parse_pkt data now
+  rw [hp] at hp'
+  cases hp'
+  have hks : ∀ k ∈ (alGet addr s.deferred).getD [] ++ [⟨data, now, p, none⟩], PktOK k := by
+    intro k hk'
+    simp only [List.mem_append, List.mem_singleton] at hk'
+    rcases hk' with hk' | rfl
+    · cases hgd : alGet addr s.deferred with
+      | none => rw [hgd] at hk'; simp at hk'
+      | some l =>
+        rw [hgd] at hk'
+        simp at hk'
+        exact hL.deferred _ (alGet_mem hgd) k hk'
+    · exact hk
+  obtain ⟨d1, qa, d', out, ha, hh, hI', hsent⟩ := handleAssembled_sends hD hS s.down _ addr port hI (by simp) hks
+  refine ⟨d1, qa, { remember s data now p with timers := alErase addr s.timers, deferred := alErase addr s.deferred, down := d' },
+    out, ha, ?_, hI', ?_, hsent⟩
+  · unfold respond
+    dsimp only [remember, Option.toList]
+    rw [hh]
+  · refine ⟨?_, ?_⟩
+    · intro a t ht
+      simp only [remember] at ht ⊢
+      by_cases ha' : a = addr
+      · subst ha'; rw [alGet_alErase_self] at ht; simp at ht
+      · rw [alGet_alErase_ne _ ha'] at ht
+        rw [alGet_alErase_ne _ ha']
+        exact hL.timer a t ht
+    · intro q hq'
+      exact hL.deferred q (mem_alErase hq')
+
+/-- **An announcement sent afterwards still reaches the record manager** (generic form): a valid
+response that is not a duplicate of a datagram processed less than a second earlier is ingested, and
+everything the ingestion emits (listener callbacks) is emitted by the block. -/
+theorem recv_response_ingested {D : Down σ ω} {I : σ → Prop} {S : QA → Prop} (hD : DownOK D I S)
+    (s : State σ) (hI : I s.down) (hL : LInv s) (data : Bytes) (addr : Addr) (port : Nat) (now : Ms) (draw : Nat) (p : Parsed)
+    (hsize : data.length ≤ 8966) (hg : guardHit s data now = false) (hp : (parse data).out = .ok p)
+    (hv : p.valid = true) (hq : Gen.Listener.is_query p.hdr.flags = false) :
+    ∃ d' o s', D.ingest s.down ⟨data, now, p, none⟩ = .ok (d', o) ∧
+      recv D s data addr port now draw = .ok (s', o.map Out.down, .response) ∧ s'.down = d' ∧ I d' ∧ LInv s' := by
+  obtain ⟨p', hp', hk⟩ := parse_pkt data now
+  rw [hp] at hp'
+  cases hp'
+  obtain ⟨d', o, hi, hI'⟩ := hD.ingest s.down ⟨data, now, p, none⟩ hI hk
+  rw [recv_response_eq D s data addr port now draw p hsize hg hp hv hq, hi]
+  exact ⟨d', o, { remember s data now p with down := d' }, rfl, rfl, rfl, hI', LInv.congr (s := s) rfl rfl hL⟩
+
 end Zc.Survive
